@@ -32,7 +32,8 @@ S0(t) ==
      cur  |-> [w \in 1..t.workers |-> 0],
      inst |-> [c \in Comp |-> IF t.prog[c].seeded
                                  THEN (IF t.prog[c].outc = "none" THEN NoneV ELSE SeedV(c)) ELSE Absent],
-     missing |-> [c \in Comp |-> NoMiss]]
+     \* reports an earlier evaluation left in this broker (driver "rerun"); none in all other executions
+     missing |-> [c \in Comp |-> IF c \in DOMAIN t.miss0 /\ t.miss0[c].set THEN t.miss0[c] ELSE NoMiss]]
 
 InitFrom(t) ==
     LET s == S0(t) IN
@@ -91,7 +92,10 @@ AttOK ==
     /\ LET c == Ev.c
            e == Eff(inst, c)
        IN /\ SameVal(e.v, Ev.v)                                       \* Isolation / SeedsPreserved / MissingExact(rule)
-          /\ SameMiss(IF e.m.set THEN e.m ELSE missing[c], Ev.m)      \* MissingExact
+          \* MissingExact; a report left by an EARLIER evaluation for a component that is not skipped now is
+          \* history the statement does not speak about: it may stay or be dropped
+          /\ \/ SameMiss(IF e.m.set THEN e.m ELSE missing[c], Ev.m)
+             \/ (~e.m.set /\ ~Ev.m.set)
           /\ e.calls = Ev.calls                                       \* FiresIff / ArgBinding / OnlyGraphRuns
           /\ \A r \in Rng(Ev.recs) : RecAllowed(r, c)                 \* NothingElsewhere
           /\ ObsOK(c, e.v)                                            \* ObserversExact
@@ -157,7 +161,7 @@ DiagAtt ==
                 ELSE "ArgBinding")
          ELSE IF ~SameVal(e.v, Ev.v) THEN
              (IF c \in Seeded THEN "SeedsPreserved" ELSE IF e.v.k = "skipresp" \/ Ev.v.k = "skipresp" THEN "MissingExact.rule" ELSE "Isolation.value")
-         ELSE IF ~SameMiss(IF e.m.set THEN e.m ELSE missing[c], Ev.m) THEN "MissingExact"
+         ELSE IF ~SameMiss(IF e.m.set THEN e.m ELSE missing[c], Ev.m) /\ ~(~e.m.set /\ ~Ev.m.set) THEN "MissingExact"
          ELSE IF \E r \in Rng(Ev.recs) : ~RecAllowed(r, c) THEN
              (LET r == CHOOSE r \in Rng(Ev.recs) : ~RecAllowed(r, c) IN
               IF r.kind = "skip" /\ ~ss THEN "SkipRecordedOnlyIfEnabled"
